@@ -368,6 +368,9 @@ func runC08(tier, scratch, replay string, nworkers int) *merged {
 		// the predicates of the known findings are functions of the cell and of the item that is hit
 		class := func(name string, itemIsFile bool, file, id string) string {
 			switch {
+			case bySkip(name) && itemIsFile && strings.HasPrefix(file, "custom_"):
+				// K13: a standalone file with a custom Filename cannot be attributed to the skipped test that owns it
+				return "K13-custom-named-standalone-file-of-skipped-test"
 			case bySkip(name) && itemIsFile:
 				// F5: the skip list is never consulted when whole files are examined
 				return "F5-skipped-owner-file-not-protected"
